@@ -171,6 +171,11 @@ func c04Check(c *ev.Collector, k c04Case, baseline wireObs) {
 		// ---- handler side: no clean end of the request stream when it failed or stopped mid-message
 		midMessage := !complete && !bounds[cut]
 		failed := !cleanEnd
+		if k.Script.End == "wrapped-eof" && (complete || bounds[cut]) {
+			// an error that wraps io.EOF *between* two envelopes is an end of stream by Go's
+			// conventions (errors.Is(err, io.EOF)): not judged; inside an envelope it is a failure
+			failed = false
+		}
 		if !w.Kind.ClientStreams() && !(w.Proto == PConnect && w.Kind == KUnary) {
 			// single-request kinds read exactly one envelope: what happens after it is never observed
 			firstEnd := 0
@@ -598,7 +603,7 @@ func TestC04(t *testing.T) {
 			})
 		}
 		for _, off := range offsets {
-			ends := []string{"eof", "unexpected", "transport", "rst:NO_ERROR", "rst:CANCEL"}
+			ends := []string{"eof", "unexpected", "transport", "wrapped-eof", "rst:NO_ERROR", "rst:CANCEL"}
 			if thorough {
 				ends = append(ends, "rst:REFUSED_STREAM", "rst:ENHANCE_YOUR_CALM", "rst:INTERNAL_ERROR")
 			}
